@@ -399,6 +399,35 @@ def cache_discipline(ctx, E, s, prop="C03"):
                                             f"{c.attrs.get('interp_kind')}, {I.describe(c.attrs.get('interp_fill'))}), "
                                             f"arguments were ({branch}, {kind}, {I.describe(fill)})"))
 
+    # a build that fails (scipy refuses the data: fewer points than the spline order, an empty branch) must not leave a cache that
+    # claims the current arguments: the repeated call would be answered by whatever interpolating function the field still holds
+    orig = I.ext["scipy.interpolate.interp1d"]
+
+    def interp1d_refuses(I, a, k, n):
+        raise I.fault("ValueError", n, "interp1d refuses the data")
+    I.ext["scipy.interpolate.interp1d"] = interp1d_refuses
+    try:
+        for which, fi, field in (("loading_at", fla, "l_interpolator"), ("pressure_at", fpa, "p_interpolator")):
+            for branch, kind, fill in [("des", "cubic", None), ("ads", "linear", Num.const(0))]:
+                for cname in ("absent", "other-branch", "other-kind", "other-fill"):
+                    kw = {"branch": branch, "interpolation_type": kind, "interp_fill": fill}
+                    res = E.run(fi, lambda: mk_point_isotherm(I, s, cache={field: cache_variants(branch, kind, fill, ci_interp)[cname]}), [x], kw)
+                    for oc, obj in res:
+                        n += 1
+                        c = obj.attrs.get(field)
+                        claims = isinstance(c, Obj) and (c.attrs.get("interp_branch"), c.attrs.get("interp_kind")) == (branch, kind) and \
+                            I.py_eq(c.attrs.get("interp_fill"), fill) is True
+                        ctx.ob(oc.kind != "ok" and not claims,
+                               Finding(f"{prop}.R-cache", fi.where, f"{which}|failed-build|cache={cname}|{'answered' if oc.kind == 'ok' else 'cache-claims-arguments'}",
+                                       f"{which}(x, branch={branch!r}, interpolation_type={kind!r}, interp_fill={I.describe(fill)}) with cached interpolator "
+                                       f"'{cname}' while scipy refuses to build the interpolator: " +
+                                       ("the call is answered" if oc.kind == "ok" else
+                                        "the call fails but the cache field afterwards is keyed with the arguments of the failed call - a repeated call "
+                                        "is answered by the function the field still holds")),
+                               nontrivial_key=(which, "failed-build", cname, str(fill)),
+                               sample={"rule": "R-cache", "call": which, "cache": cname, "scenario": "failed build"})
+    finally:
+        I.ext["scipy.interpolate.interp1d"] = orig
     return n
 
 
@@ -719,8 +748,34 @@ def r_split_values(ctx, model, prop="C03"):
     I.libmeth[("SplitIndex", "__getitem__")] = lambda I, v, a, k, n: v.attrs["labels"][int(I.to_py(a[0], n))]
     old_len = I.ext["builtins.len"]
     I.ext["builtins.len"] = lambda I, a, k, n: _sp.Integer(len(a[0].attrs["p"])) if isinstance(a[0], Obj) and a[0].kind in ("SplitFrame", "SplitCol", "SplitIndex") \
-        else old_len(I, a, k, n)
+        else _sp.Integer(len(a[0].attrs["arr"])) if isinstance(a[0], Obj) and a[0].kind == "MarkSeries" else old_len(I, a, k, n)
     I.ext["numpy.argmax"] = lambda I, a, k, n: _sp.Integer(first_max(a[0])) if isinstance(a[0], Obj) and a[0].kind == "SplitCol" else I.err(n, "argmax of an unknown value")
+    # a labelled result (pandas.Series): the callers store it with `data['branch'] = result`, which pandas aligns on row LABELS - so a
+    # Series is a correct result only when it carries the labels of `data`; one with the default 0..n-1 labels is misaligned (or all-NaN)
+    # for any table whose labels are not its positions
+    def _pos(x):
+        return None if x is None else int(I.to_py(x, None))
+
+    def _key(kx):
+        return slice(_pos(kx.start), _pos(kx.stop), _pos(kx.step)) if isinstance(kx, slice) else _pos(kx)
+
+    def series(I, a, k, n):
+        data = a[0] if a else k.get("data")
+        idx = a[1] if len(a) > 1 else k.get("index")
+        labels = list(idx.attrs["labels"]) if isinstance(idx, Obj) and idx.kind in ("SplitIndex", "SplitCol", "SplitFrame") else None
+        if idx is not None and labels is None:
+            I.err(n, "pandas.Series with an index that is not the table's own")
+        return Obj(kind="MarkSeries", label="series", attrs={"arr": _np.array(list(to_np(I, data)), dtype=object), "labels": labels})
+    I.ext["pandas.Series"] = series
+    I.libattr[("MarkSeries", "iloc")] = lambda I, v, n: Obj(kind="MarkILoc", label="iloc", attrs={"s": v})
+    I.libattr[("MarkSeries", "values")] = lambda I, v, n: v.attrs["arr"]
+    I.libmeth[("MarkSeries", "to_numpy")] = lambda I, v, a, k, n: v.attrs["arr"]
+    I.libmeth[("MarkSeries", "__len__")] = lambda I, v, a, k, n: _sp.Integer(len(v.attrs["arr"]))
+
+    def iloc_set(I, v, a, k, n):
+        v.attrs["s"].attrs["arr"][_key(a[0])] = a[1]
+    I.libmeth[("MarkILoc", "__setitem__")] = iloc_set
+    I.libmeth[("MarkILoc", "__getitem__")] = lambda I, v, a, k, n: v.attrs["s"].attrs["arr"][_key(a[0])]
     seqs = [[1, 2, 3], [3, 2, 1], [1, 3, 2], [1, 2, 4, 3, 1], [R(1, 10), R(1, 5), R(2, 5), R(4, 5), 1, R(7, 10)], [1, R(1, 2)], [5], [1, 3, 3, 2], [2, 1, 3],
             [1, 2, 3, 4, 5, 4, 3]]
     nrun = 0
@@ -732,8 +787,12 @@ def r_split_values(ctx, model, prop="C03"):
         outs = I.explore(lambda I: I.call_func(fi, [frame(), "pressure"], {}, None))
         nrun += 1
         got = None
-        if len(outs) == 1 and outs[0].kind == "ok":
-            v = to_np(I, outs[0].value)
+        if len(outs) == 1 and outs[0].kind == "ok" and isinstance(outs[0].value, Obj) and outs[0].value.kind == "MarkSeries" \
+                and outs[0].value.attrs["labels"] != [_sp.Integer(100 + 7 * i) for i in range(n)]:
+            got = "a pandas Series labelled 0..n-1 (stored by the callers with label alignment, not by position)"
+        elif len(outs) == 1 and outs[0].kind == "ok":
+            v = outs[0].value
+            v = to_np(I, v.attrs["arr"] if isinstance(v, Obj) and v.kind == "MarkSeries" else v)
             try:
                 got = [int(bool(x)) if isinstance(x, bool) else int(x) for x in list(v)]
             except (TypeError, ValueError):
